@@ -99,6 +99,35 @@ CLAIMED = {
         technique="TLA+ spec Xadd over the eBPF machine Ebpf.tla; TLC executes the real emitted bytecode under "
                   "all interleavings",
         design_ref="5/C06"),
+
+    "C27": dict(
+        category="model_checking",
+        text="Valve.tla is model-checked exhaustively (all configurations, bounded clock). TLC enumerates all "
+             "histories in normal form (SetTarget, Switches, optional Advance, Update per cycle; 3 cycles quick, "
+             "4 thorough; moving times {0,1,3}; both safe-state settings), each replayed on a real Valve whose "
+             "coil and switches are bit variables of a real SyncGroup frame, with the module clock replaced by "
+             "a virtual one; TLC validates coil, target and error after every update. Seeded longer histories "
+             "are added on top.",
+        note="As the property states, the position check is prescribed for the default safe state only; for "
+             "safeState = True only the error reaction is judged. Resets in mid-history are not explored. "
+             "'Elapsed' is read as now - lastGood >= movingTime.",
+        technique="TLA+ spec Valve + TLC exhaustive model check; TLC-enumerated histories replayed on real code; "
+                  "TLC trace validation",
+        design_ref="5/C27"),
+    "C28": dict(
+        category="model_checking",
+        text="Serial.tla (the EL6002 handshake as two one-place channels plus initialisation) is model-checked "
+             "with free interleaving. TLC enumerates terminal timing behaviours (init and ready delays, toggle "
+             "start states, write gaps, accept and announce delays 0..k, buffer scribbling); each is played "
+             "cycle by cycle on the real Serial.update() through the real EL6002.Channel descriptors in a real "
+             "SyncGroup frame, the application side using the real pipes; TLC validates every update's output "
+             "image and delivered bytes and requires everything to be transferred at the end.",
+        note="The terminal model is the forgiving one (it registers transmit requests from the init "
+             "acknowledgement on). Pipe-full / partial writes, writes above 50 bytes and re-initialisation are "
+             "not covered.",
+        technique="TLA+ spec Serial + TLC model check; TLC-enumerated behaviours replayed on real code; TLC trace "
+                  "validation",
+        design_ref="5/C28"),
 }
 NOT_YET = "not yet built in this round (planned in DESIGN.md section 5)"
 NOT_APPLICABLE = {}
